@@ -35,6 +35,23 @@ _installed = False
 STATS = {}
 
 
+def _arrays_agree(r, ref):
+    """log-domain 1e-10 on the direct path.  From 1000 grid points the FFT path is used, whose error is absolute
+    (about 1e-16 x row peak per operation) and depends on the summation order that an order-insensitive cache key
+    legitimately changes; there agreement is required in the linear domain relative to the row peak (1e-8), the
+    accuracy C02 states for that path."""
+    r = np.asarray(r, dtype=float)
+    ref = np.asarray(ref, dtype=float)
+    if r.shape != ref.shape:
+        return False, -1.0
+    if r.ndim >= 1 and r.shape[-1] >= 1000:
+        peak = np.max(ref, axis=-1, keepdims=True)
+        d = float(np.max(np.abs(np.exp(r - peak) - np.exp(ref - peak))))
+        return d <= 1e-8, d
+    d = float(np.max(np.abs(r - ref))) if r.size else 0.0
+    return bool(np.allclose(r, ref, atol=1e-10, rtol=1e-10)), d
+
+
 def _bump(tag, hit):
     s = STATS.setdefault(tag, [0, 0])
     s[0] += 1
@@ -65,8 +82,9 @@ def install():
         hit = oS.cache_info().hits > h
         ref = oS.__wrapped__(np.array(children, order="C"), *a, **k)
         _bump("compute_log_S", hit)
-        if np.shape(r) != np.shape(ref) or not np.allclose(r, ref, atol=1e-10, rtol=1e-10):
-            raise Violation("memo/compute_log_S", "memoised children recursion differs from the unmemoised result by %.3e (%d children, cache %s)" % (float(np.max(np.abs(np.asarray(r) - np.asarray(ref)))) if np.shape(r) == np.shape(ref) else -1, len(children), "hit" if hit else "miss"), dict(fn="compute_log_S", hit=hit))
+        ok, dev = _arrays_agree(r, ref)
+        if not ok:
+            raise Violation("memo/compute_log_S", "memoised children recursion differs from the unmemoised result by %.3e (%d children, cache %s)" % (dev, len(children), "hit" if hit else "miss"), dict(fn="compute_log_S", hit=hit))
         return r
 
     sS.cache_info = oS.cache_info
@@ -83,8 +101,9 @@ def install():
         hit = oC.cache_info().hits > h
         ref = oC.__wrapped__(a1, a2, *a, **k)
         _bump("convolve_two", hit)
-        if np.shape(r) != np.shape(ref) or not np.allclose(r, ref, atol=1e-10, rtol=1e-10):
-            raise Violation("memo/convolve_two_children", "memoised pairwise convolution differs from the unmemoised result by %.3e (cache %s)" % (float(np.max(np.abs(r - ref))), "hit" if hit else "miss"), dict(fn="convolve", hit=hit))
+        ok, dev = _arrays_agree(r, ref)
+        if not ok:
+            raise Violation("memo/convolve_two_children", "memoised pairwise convolution differs from the unmemoised result by %.3e (cache %s)" % (dev, "hit" if hit else "miss"), dict(fn="convolve", hit=hit))
         return r
 
     sC.cache_info = oC.cache_info
@@ -177,7 +196,7 @@ def _stream(draw):
     calls = []
     for _ in range(draw(st.integers(3, 12))):
         calls.append(dict(idx=draw(st.lists(st.integers(0, k - 1), min_size=1, max_size=4)), copy=draw(st.booleans()), clear=draw(st.integers(0, 7)) == 0))
-    return dict(kind="stream", k=k, dims=draw(st.sampled_from([1, 2])), G=draw(st.sampled_from([4, 9, 16])), values=draw(gen.st_values_spec(regimes=("moderate", "ties", "flat"), max_scale=2.0)), calls=calls)
+    return dict(kind="stream", k=k, dims=draw(st.sampled_from([1, 2])), G=draw(st.sampled_from([4, 9, 1000, 16, 1200])), values=draw(gen.st_values_spec(regimes=("moderate", "ties", "flat"), max_scale=2.0)), calls=calls)
 
 
 def strategy(ctx, shard=0):
@@ -280,6 +299,8 @@ def _run_stream(case):
             tu._convolve_two_children.cache_clear()
             classes.append("array-cache-clear")
         arrs = [vals[i].copy() if c["copy"] else vals[i] for i in c["idx"]]
+        if case["G"] >= 1000:
+            classes.append("fft-grid")
         if len(set(c["idx"])) < len(c["idx"]):
             classes.append("duplicated-children")
         try:
